@@ -120,6 +120,15 @@ func checkConfigCompatibility(
 		}
 	}
 
+	{
+		// the inputs are not restarted and keep allocating log records whose reference count is the number of outputs
+		oldNum := len(oldConf.OutputBuffersPairs)
+		newNum := len(newConf.OutputBuffersPairs)
+		if oldNum != newNum {
+			return fmt.Errorf("outputBufferPairs: the number of outputs must not change: old=%d, new=%d", oldNum, newNum)
+		}
+	}
+
 	// check schema fields last because other comparisons are more verbose
 	{
 		for _, field := range oldStats.FixedFields {
